@@ -146,7 +146,10 @@ def rule_R4(ctx, prj):
                    "token (each violating form was confirmed against the real code to mis-measure a canonical program)", floor=6)
     gb = prj.func(f"{SCU}:get_blocks")
     ctors = [c for c in gb.calls() if attr_chain(c.func) == "TokenRange" and len(c.args) == 2]
-    if not ctors:
+    evaluated_blocks = _get_blocks_evaluated(ctx, prj, gb)
+    if evaluated_blocks:
+        ctors = []
+    elif not ctors:
         raise AnalysisError(f"{gb.disp}: construction of the blocks' TokenRange not found")
     for c in ctors:
         first = second = None
@@ -192,6 +195,29 @@ def rule_R4(ctx, prj):
     if py is not None:
         if not _python_suites_evaluated(ctx, prj, py):
             _python_suites(ctx, prj, py)
+
+
+def _get_blocks_evaluated(ctx, prj, gb) -> bool:
+    """get_blocks interpreted on `x { y { z } } w { }`: ranges (open index, close index + 1), in source order"""
+    from ..absint import MiniInterp, PyRaise, Unknown, make_token
+    try:
+        it = MiniInterp(prj, max_steps=300000)
+        words = "x { y { z } } w { }".split()
+        tokens = [make_token(it, prj, "Punctuation" if w in "{}" else "Name", w, 1 + i // 4, 2 * (i % 4) + 1) for i, w in enumerate(words)]
+        r = it.call(gb, [tokens, "{", "}"], {})
+        r = r.rest() if hasattr(r, "rest") else list(it.iterate(r))
+        got = [(it.getattr(x, "start", gb, None), it.getattr(x, "end", gb, None)) for x in r]
+    except (Unknown, PyRaise, AttributeError, KeyError, TypeError) as e:
+        ctx.info(f"R4: get_blocks not evaluable ({type(e).__name__}: {e}); its range construction is read syntactically")
+        return False
+    want = [(1, 7), (3, 6), (8, 10)]
+    if got == want:
+        ctx.ok("R4", gb.site(), f"get_blocks on `x {{ y {{ z }} }} w {{ }}`: {got} - (open index, close index + 1), in source order")
+    else:
+        ends_short = [g for g, w in zip(got, want) if g[0] == w[0] and g[1] != w[1]]
+        ctx.viol("R4", "get_blocks/exclusive-end" if ends_short or len(got) != len(want) else "get_blocks/order", gb.site(),
+                 f"get_blocks on `x {{ y {{ z }} }} w {{ }}` gives {got}; required {want} (open index, close index + 1 - the closing brace is the block's last token - in source order)")
+    return True
 
 
 def _is_empty_test(e, stack: str):
